@@ -171,12 +171,7 @@ def round_trip_failures(sk, g):
 
 class Lane(LaneBase):
     PROP = 'C09'
-    THEOREMS = [
-        'CG.C09.sk_nodes', 'CG.C09.sk_edges_iff', 'CG.C09.sk_adj_iff', 'CG.C09.sk_adj_symm',
-        'CG.C09.sk_exists_comm', 'CG.C09.sk_exists_iff', 'CG.C09.sk_get_edge_iff', 'CG.C09.sk_get_edge_comm',
-        'CG.C09.sk_neighbors_iff', 'CG.C09.sk_follows', 'CG.C09.sk_dict_round_trip',
-        'CG.C09.sk_matrix_round_trip', 'CG.C09.sk_networkx_matrix',
-    ]
+    THEOREMS = 'auto'
     AUDIT = 'CG/Audit/C09.lean'
     DIFF_IS_FAILURE = False
     RULE = ('random histories of 3-25 public mutator calls on both classes over all six edge types; the Skeleton '
